@@ -72,6 +72,31 @@ This discharges the hypothesis `domOK` makes about the `repr` of a `str`. -/
 theorem str_repr_roundtrips (pr : Char → Bool) (s : Str) : decodeStrLit (pyReprStr pr s) = some s :=
   decodeStrLit_pyReprStr pr s
 
+/-- **float_repr_evaluates_back**: for every value of the binary64 format
+(zeros of both signs, subnormal and normal numbers, ±inf, NaN) the token
+`repr(x)` / the argument of `float("…")` is read back as exactly `x` - C05's
+`float_repr_rt` at the place where the code serializer relies on it. This
+discharges what `domOK` asks of a float (`r = x.repr`, `x` canonical). -/
+theorem float_repr_evaluates_back (x : Xs.Conv.F64) (hx : f64Canonical x = true) :
+    readFloat x.repr = some x :=
+  Props.C05.float_repr_rt Py.Env.ascii x (canonical_of_B hx)
+
+/-- **decimal_repr_evaluates_back**: for every `Decimal` (any sign, coefficient
+and exponent - `1E+3`, `-0E-7`, `0.000001`, `1.50` -, the infinities, quiet and
+signaling NaN with payload) `repr(d)` = `Decimal('<str(d)>')` is read back as
+exactly `d`: the string literal denotes `str(d)` and `Decimal(str)` (C05's
+`decimalParse`) recovers sign, digits and exponent. -/
+theorem decimal_repr_evaluates_back (d : Xs.Conv.Dec) : readDecimal (decRepr d) = some d :=
+  readDecimal_decRepr d
+
+theorem decimal_str_parse (e : Py.Env) (d : Xs.Conv.Dec) : Xs.Conv.decimalParse e (decStr d) = some d :=
+  decimalParse_decStr e d
+
+example : f64Canonical (.fin true 6755399441055744 (-52)) = true ∧
+    (Xs.Conv.F64.fin true 6755399441055744 (-52)).repr = cs!"-1.5" ∧
+    decRepr (.fin true 0 (-7)) = cs!"Decimal('-0E-7')" ∧ decRepr (.fin false 12345 (-10)) = cs!"Decimal('0.0000012345')" := by
+  decide +kernel
+
 /-- **bytes_repr_roundtrips**: likewise for `repr(b)` of any bytes value -/
 theorem bytes_repr_roundtrips (bs : List Nat) (h : ∀ b ∈ bs, b < 256) :
     decodeBytesLit (pyReprBytes bs) = some bs :=
@@ -133,12 +158,11 @@ theorem imports_sufficient (W : World) (v : Val)
     (hwf : wf W v = true) (hdom : domOK W v = true) (hr : renders W v = true) :
     EnvGood W (importsEnv W v) (render W v).refs := by
   intro pc hpc
-  have hok := valOK_of_dom W v hdom
-  have hg := refs_good W v hwf hok pc hpc
+  have hg := refs_good W v hwf hdom pc hpc
   have hmem := refs_sub_types (render W v) pc hpc
   apply resolve_of_good hg hmem
   intro t ht
-  have := importsOK_of_renders W v hwf hok hr
+  have := importsOK_of_renders W v hwf hdom hr
   simp only [importsOK, importsOKe, List.all_eq_true] at this
   have h := this pc hpc t ht
   simp only [Bool.or_eq_true, beq_iff_eq, bne_iff_ne] at h
@@ -158,22 +182,23 @@ sets and frozensets, strings and bytes with any content, QNames with any text,
 maps. Fields elided because they equal their default are restored by the
 constructor to a value equal to the original's. -/
 theorem code_rt_partial (W : World) (v : Val)
-    (hwf : wf W v = true) (hdom : domOK W v = true) (hr : renders W v = true)
+    (hwf : wf W v = true) (hdom : domOK W v = true) (hinit : initFalseAtDefault W v = true) (hr : renders W v = true)
     (hn : nestingOK W v = true) :
     ∃ v', run W v = .ok v' ∧ pyEq v' v = true := by
-  obtain ⟨v', h1, h2, _⟩ := rt W (importsEnv W v) v hwf (valOK_of_dom W v hdom)
+  obtain ⟨v', h1, h2, _⟩ := rt W (importsEnv W v) v hwf (valOK_of_dom W v hdom hinit)
     (imports_sufficient W v hwf hdom hr)
   exact ⟨v', by simp [run, hn, h1], h2⟩
 
 /-- the same, phrased on the outcome class that the correspondence check
 compares with the real `exec` -/
 theorem outcome_equal_partial (W : World) (v : Val)
-    (hwf : wf W v = true) (hdom : domOK W v = true) (hr : renders W v = true)
-    (hn : nestingOK W v = true) :
+    (hwf : wf W v = true) (hdom : domOK W v = true) (hinit : initFalseAtDefault W v = true) (hr : renders W v = true)
+    (hn : nestingOK W v = true) (hq : comparesQuietly W v = true) :
     outcome W v = cs!"equal" := by
-  obtain ⟨v', hrun, he⟩ := code_rt_partial W v hwf hdom hr hn
-  have hrisk := no_risk W v (valOK_of_dom W v hdom)
-  simp [outcome, hr, hrisk, hrun, he]
+  obtain ⟨v', hrun, he⟩ := code_rt_partial W v hwf hdom hinit hr hn
+  have hrisk := no_risk W v hdom
+  have hq' : cmpRaises W v = some false := by simpa [comparesQuietly] using hq
+  simp [outcome, hq', hr, hrisk, hrun, he]
 
 /-- **render either refuses or round-trips**: `PycodeSerializer.render` raises
 `SerializerError` exactly when one outermost name belongs to two modules among
@@ -181,24 +206,25 @@ the types it collected; otherwise it returns the source text, and (within the
 nesting limit) that source evaluates back to an equal object. It never returns
 source that builds something else. -/
 theorem render_refuses_or_round_trips (W : World) (v : Val) (var : Str)
-    (hwf : wf W v = true) (hdom : domOK W v = true) (hn : nestingOK W v = true) :
+    (hwf : wf W v = true) (hdom : domOK W v = true) (hinit : initFalseAtDefault W v = true) (hn : nestingOK W v = true) (hq : comparesQuietly W v = true) :
     (sourceE W v var = .error .serializerError ∧ clashFree (render W v).types = false) ∨
     (sourceE W v var = .ok (source W v var) ∧ ∃ v', run W v = .ok v' ∧ pyEq v' v = true) := by
+  have hq' : cmpRaises W v = some false := by simpa [comparesQuietly] using hq
   cases hr : renders W v
   · left
-    exact ⟨by simp [sourceE, hr], by simpa [renders] using hr⟩
+    exact ⟨by simp [sourceE, hq', hr], by simpa [renders] using hr⟩
   · right
-    exact ⟨by simp [sourceE, hr], code_rt_partial W v hwf hdom hr hn⟩
+    exact ⟨by simp [sourceE, hq', hr], code_rt_partial W v hwf hdom hinit hr hn⟩
 
 /-- **code_rt for any adequate namespace**: the round trip does not depend on
 how the names got bound — any namespace in which the references resolve will do
 (e.g. the source pasted into a module that already imports the classes; this is
 also the way around an import name clash). -/
 theorem code_rt_any_env (W : World) (env : Xs.Code.Env) (v : Val)
-    (hwf : wf W v = true) (hdom : domOK W v = true) 
+    (hwf : wf W v = true) (hdom : domOK W v = true) (hinit : initFalseAtDefault W v = true) 
     (henv : EnvGood W env (render W v).refs) :
     ∃ v', eval W env (render W v) = .ok v' ∧ pyEq v' v = true := by
-  obtain ⟨v', h1, h2, _⟩ := rt W env v hwf (valOK_of_dom W v hdom) henv
+  obtain ⟨v', h1, h2, _⟩ := rt W env v hwf (valOK_of_dom W v hdom hinit) henv
   exact ⟨v', h1, h2⟩
 
 /-! The hypotheses are satisfiable by a non-trivial input: nested model
@@ -227,12 +253,14 @@ def W1 : World := [
 
 def good : Val :=
   .model outerR [
-    .list [.model deepR [.list [.float .pinf cs!"inf", .opaque decR [cs!"Decimal"] cs!"('1.50')" (some (.fin 3 2))]],
+    .list [.model deepR [.list [.float (.inf false) cs!"inf", .decimal (.fin false 150 (-2)) cs!"Decimal('1.50')", .float (.fin true 6755399441055744 (-52)) cs!"-1.5",
+             .decimal (.fin true 1 3) cs!"Decimal('-1E+3')"]],
            .model in2R [.dict [(.enum topR cs!"B", .qname cs!"{a\\b}\"x")]]],
     .tuple [.enum innerR cs!"A", .dict [(.tuple [.int 1, .int 2], .set true [.tuple [.int 3], .none]), (.int 0, .set false [])]], en, .bool false]
 
-example : wf W1 good = true ∧ domOK W1 good = true ∧ renders W1 good = true ∧ nestingOK W1 good = true := by decide
-example : outcome W1 good = cs!"equal" := by decide
+example : wf W1 good = true ∧ domOK W1 good = true ∧ initFalseAtDefault W1 good = true ∧ renders W1 good = true ∧
+    nestingOK W1 good = true ∧ comparesQuietly W1 good = true := by decide +kernel
+example : outcome W1 good = cs!"equal" := by decide +kernel
 
 /-! ## Full-strength statements and why they still fail -/
 
@@ -285,6 +313,53 @@ theorem deep_nesting_does_not_compile :
     outcome [] (nestedList 200) = cs!"equal" := by
   decide +kernel
 
+/-- decidable form of "running the source gives a value unequal to the original" -/
+def givesUnequal (W : World) (v : Val) : Bool :=
+  match run W v with
+  | .ok v' => !pyEq v' v
+  | .error _ => false
+
+theorem not_rt_of_unequal {W : World} {v : Val} (h : givesUnequal W v = true) :
+    ¬ ∃ v', run W v = .ok v' ∧ pyEq v' v = true := by
+  rintro ⟨v', hr, he⟩
+  simp [givesUnequal, hr, he] at h
+
+/-- **Defect — an `init=False` attribute changed after construction is not
+restored.** `repr_model` skips `init=False` fields (the constructor would not
+accept them) and emits nothing else, so the evaluated object holds the class
+default again: `Outer(lang="en")` with `obj.lang = "fr"` comes back with
+`lang == "en"`. -/
+def movedInitFalseWitness : Val := .model outerR [.none, .tuple [], .str cs!"fr" cs!"'fr'", .int 0]
+
+theorem init_false_attribute_not_restored :
+    wf W1 movedInitFalseWitness = true ∧ domOK W1 movedInitFalseWitness = true ∧
+    renders W1 movedInitFalseWitness = true ∧ nestingOK W1 movedInitFalseWitness = true ∧
+    comparesQuietly W1 movedInitFalseWitness = true ∧ initFalseAtDefault W1 movedInitFalseWitness = false ∧
+    source W1 movedInitFalseWitness cs!"obj" = cs!"from pkg.mod_a import Outer\n\n\nobj = Outer(\n\n)\n" ∧
+    givesUnequal W1 movedInitFalseWitness = true ∧ outcome W1 movedInitFalseWitness = cs!"unequal" := by
+  decide
+
+theorem not_codeRoundTrips_init_false : ¬ CodeRoundTrips := fun h =>
+  not_rt_of_unequal init_false_attribute_not_restored.2.2.2.2.2.2.2.1
+    (h W1 movedInitFalseWitness init_false_attribute_not_restored.1 init_false_attribute_not_restored.2.1
+      init_false_attribute_not_restored.2.2.1)
+
+/-- **Defect — a signaling NaN makes `render` itself fail.** `repr_model` tests
+`default == value`; a number compared with `Decimal('sNaN')` raises
+`decimal.InvalidOperation` and nothing catches it. With a non-numeric default
+(`None`) the value is rendered and evaluates back, but then `restored ==
+original` raises in turn (no `==` exists for such a value). -/
+def snan : Val := .decimal (.nan false true 0) cs!"Decimal('sNaN')"
+def snanWitness : Val := .model outerR [.none, .tuple [], en, snan]
+def snanRendered : Val := .model outerR [snan, .tuple [], en, .int 0]
+
+theorem snan_default_comparison_raises :
+    wf W1 snanWitness = true ∧ renders W1 snanWitness = true ∧ comparesQuietly W1 snanWitness = false ∧
+    outcome W1 snanWitness = cs!"refused:InvalidOperation" ∧
+    comparesQuietly W1 snanRendered = true ∧ outcome W1 snanRendered = cs!"eqexc:InvalidOperation" ∧
+    domOK W1 snanWitness = false := by
+  decide
+
 theorem not_codeRoundTrips : ¬ CodeRoundTrips := fun h =>
   not_rt_of_fails deep_nesting_does_not_compile.2.2.2.2.1
     (h [] (nestedList 201) deep_nesting_does_not_compile.1 deep_nesting_does_not_compile.2.1
@@ -302,7 +377,7 @@ def W2 : World := [
   ⟨floatCls, .model [⟨cs!"v", true, .value .none⟩]⟩]
 def clashWitness1 : Val := .model addrA [.model addrB [.none, .int 1], .int 0]
 def clashWitness2 : Val := .model addrB [.model addrA [.none, .int 1], .int 0]
-def shadowWitness : Val := .model floatCls [.float .pinf cs!"inf"]
+def shadowWitness : Val := .model floatCls [.float (.inf false) cs!"inf"]
 
 theorem name_clash_is_refused :
     wf W2 clashWitness1 = true ∧ domOK W2 clashWitness1 = true ∧
